@@ -313,7 +313,11 @@ func (b *batch) run(id int, n int) {
 	// directed: hosts of different address types with the same address bytes, under one level-1 key
 	for _, p := range []drkey.Protocol{drkey.SCMP, 9} {
 		for _, h := range [][2]string{{"CS", "0.2.0.0"}, {"0.2.0.0", "CS"}, {"DS", "0.1.0.0"}, {"0.1.0.0", "DS"},
-			{"Wildcard", "0.16.0.0"}, {"128.2.0.0", "CS_M"}} {
+			{"Wildcard", "0.16.0.0"}, {"128.2.0.0", "CS_M"},
+			// neighbouring addresses (last / first byte differs), both ways round
+			{"2001:db8::1", "2001:db8::2"}, {"2001:db8::2", "2001:db8::1"}, {"fd00::1:ff00", "fd00::1:ff"},
+			{"fd00::1:ff", "fd00::1:ff00"}, {"2001:db8::1", "2101:db8::1"}, {"2101:db8::1", "2001:db8::1"},
+			{"10.0.0.1", "10.0.0.2"}, {"10.0.0.2", "10.0.0.1"}, {"10.0.0.1", "11.0.0.1"}, {"11.0.0.1", "10.0.0.1"}} {
 			b.level2(ctx, p, src, dst, h[0], h[1], base)
 		}
 	}
